@@ -730,6 +730,8 @@ class Engine:
 
     def bit_and(self, x, c):
         """x & c for a python-int constant c (mathematical ints, two's complement semantics)"""
+        if c >= 0 and (c + 1) & c == 0:
+            return x % (c + 1)            # mask of the low bits: x & (2^k - 1) == x mod 2^k (floor semantics, also for negative x)
         if c >= 0:
             terms = []
             k = 0
@@ -1374,6 +1376,8 @@ class Engine:
             bound[a.vararg.arg] = VTuple(args[len(names):])
         extra = {}
         for k, v in kwargs.items():
+            if k.startswith("**"):
+                continue
             if k in names or k in [x.arg for x in a.kwonlyargs]:
                 bound[k] = v
             elif a.kwarg:
@@ -1381,7 +1385,9 @@ class Engine:
             else:
                 raise Unsupported("unexpected keyword %s" % k)
         if a.kwarg:
-            raise Unsupported("**kwargs parameter")
+            if extra:
+                raise Unsupported("**kwargs parameter with explicit keywords")
+            bound[a.kwarg.arg] = kwargs.get("**" + a.kwarg.arg) or VOpaque(fresh("kwargs", U))
         defaults = a.defaults
         for n, d in zip(names[len(names) - len(defaults):], defaults):
             if n not in bound:
@@ -2305,6 +2311,8 @@ class Engine:
             st.env = dict(bound)
             if fnode.args.vararg and fnode.args.vararg.arg in a:
                 st.env[fnode.args.vararg.arg] = a[fnode.args.vararg.arg]
+            if fnode.args.kwarg and fnode.args.kwarg.arg in a:
+                st.env[fnode.args.kwarg.arg] = a[fnode.args.kwarg.arg]
             outs = self.exec_block(fnode.body, st)
             npaths = 0
             normal_paths = 0
